@@ -800,8 +800,15 @@ fn translate_let_pattern(
 }
 
 // Thread-local counter for generating unique temp variable names.
+#[cfg(not(mimium_rs_verif_shuttle))]
 thread_local! {
     static DESUGAR_COUNTER: std::cell::Cell<u32> = const { std::cell::Cell::new(0) };
+}
+// Verification hook (off by default): shuttle runs all simulated threads on one OS thread, so the
+// counter must be a shuttle thread-local to stay per simulated thread as it is per real thread.
+#[cfg(mimium_rs_verif_shuttle)]
+shuttle::thread_local! {
+    static DESUGAR_COUNTER: std::cell::Cell<u32> = std::cell::Cell::new(0);
 }
 
 fn fresh_desugar_name() -> Symbol {
